@@ -965,3 +965,186 @@ Proof.
     + destruct (cip x =? saip s); [eauto|apply finish_spec in H; destruct H as [_ ->]; eauto].
     + destruct create; [eauto|apply finish_spec in H; destruct H as [_ ->]; eauto].
 Qed.
+
+(* ---------- sessions end exactly once ---------- *)
+Definition alv (sv : server) : list bool := map salive (sessions sv).
+
+(* a well-formed lifecycle log relative to the vector of alive flags: a session is opened with the next
+   index, and only a session that is alive can end (and is dead afterwards) *)
+Fixpoint wf_log (v : list bool) (evs : list ev) : Prop :=
+  match evs with
+  | [] => True
+  | EvOpen k :: t => k = nlen v /\ wf_log (v ++ [true]) t
+  | EvEnd k _ :: t => nnth k v = Some true /\ wf_log (nset k false v) t
+  end.
+Fixpoint kill (v : list bool) (evs : list ev) : list bool :=
+  match evs with
+  | [] => v
+  | EvOpen _ :: t => kill (v ++ [true]) t
+  | EvEnd k _ :: t => kill (nset k false v) t
+  end.
+
+Lemma wf_log_app v a b : wf_log v (a ++ b) <-> wf_log v a /\ wf_log (kill v a) b.
+Proof.
+  revert v; induction a as [|e t IH]; intros v; cbn [app wf_log kill]; [tauto|].
+  destruct e; rewrite IH; tauto.
+Qed.
+Lemma kill_app v a b : kill v (a ++ b) = kill (kill v a) b.
+Proof. revert v; induction a as [|e t IH]; intros v; cbn [app kill]; [reflexivity|]. destruct e; apply IH. Qed.
+
+Lemma alv_set_conn c x sv : alv (set_conn c x sv) = alv sv.
+Proof. reflexivity. Qed.
+Lemma alv_set_same k s s' sv :
+  nnth k (sessions sv) = Some s -> salive s' = salive s -> alv (set_sess k s' sv) = alv sv.
+Proof.
+  intros H E. unfold alv, set_sess; cbn [sessions]. rewrite map_nset, E.
+  apply nset_same. now rewrite nnth_map, H.
+Qed.
+
+Lemma end_session_alv k w sv sv' evs :
+  end_session k w sv = (sv', evs) -> wf_log (alv sv) evs /\ alv sv' = kill (alv sv) evs.
+Proof.
+  unfold end_session. intros H.
+  destruct (nnth k (sessions sv)) as [s|] eqn:Ek; [|inversion H; subst; cbn; auto].
+  destruct (salive s) eqn:Al; inversion H; subst; cbn [wf_log kill]; [|auto].
+  unfold alv; cbn [sessions]. rewrite nnth_map, Ek, map_nset. cbn. rewrite Al. auto.
+Qed.
+
+Lemma close_conn_alv c sv sv' evs :
+  close_conn c sv = Some (sv', evs) -> wf_log (alv sv) evs /\ alv sv' = kill (alv sv) evs.
+Proof.
+  unfold close_conn. intros H.
+  destruct (nnth c (conns sv)) as [x|]; [|inversion H; subst; cbn; auto].
+  destruct (copen x); cbn [negb] in H; [|inversion H; subst; cbn; auto].
+  destruct (csess x) as [k|]; [|inversion H; subst; cbn; auto].
+  destruct (nnth k (sessions (set_conn c _ sv))) as [s|] eqn:Ek; [|inversion H; subst; cbn; auto].
+  destruct (salive s) eqn:Al; cbn [negb] in H; [|inversion H; subst; cbn; auto].
+  match type of H with context [set_sess k ?s2 ?sv1] =>
+    assert (P : alv (set_sess k s2 sv1) = alv sv) by (rewrite (alv_set_same k s s2 sv1 Ek); [reflexivity|cbn; congruence])
+  end.
+  destruct (streaming s).
+  - destruct (stransport s); [|discriminate].
+    destruct (_ && _); inversion H as [H1]; clear H.
+    + apply end_session_alv in H1. rewrite P in H1. exact H1.
+    + subst. cbn. auto.
+  - destruct (_ =? _); inversion H as [H1]; clear H.
+    + apply end_session_alv in H1. rewrite P in H1. exact H1.
+    + subst. cbn. auto.
+Qed.
+
+Lemma finish_alv c sv rp e evs0 sv' rp' evs :
+  finish c sv rp e evs0 = Done sv' rp' evs ->
+  exists evs1, evs = evs0 ++ evs1 /\ wf_log (alv sv) evs1 /\ alv sv' = kill (alv sv) evs1.
+Proof.
+  unfold finish. destruct (is_fatal e).
+  - destruct (close_conn c sv) as [[sv1 ev1]|] eqn:E; [|discriminate].
+    intros H; inversion H; subst. exists ev1. split; [reflexivity|]. eapply close_conn_alv; eauto.
+  - intros H; inversion H; subst. exists []. rewrite app_nil_r. cbn. auto.
+Qed.
+
+Lemma in_session_alv cf sv c x r k evs0 sv' rp evs :
+  in_session cf sv c x r k evs0 = Done sv' rp evs ->
+  exists evs1, evs = evs0 ++ evs1 /\ wf_log (alv sv) evs1 /\ alv sv' = kill (alv sv) evs1.
+Proof.
+  unfold in_session. destruct (nnth k (sessions sv)) as [s|] eqn:Ek; [|discriminate].
+  destruct (handle _ _ _ _ _) as [s1 status e| |] eqn:Eh; [|discriminate|discriminate].
+  destruct (handle_frame _ _ _ _ _ _ _ _ Eh) as (F1 & _ & _). cbn [upd_conns salive] in F1.
+  intros H.
+  destruct (negb (is_fatal e) && meth_eqb (rmeth r) Teardown) eqn:Etd.
+  - destruct (end_session k 1 _) as [sv3 evs1] eqn:Ee.
+    apply end_session_alv in Ee. rewrite alv_set_conn, (alv_set_same k s _ sv Ek) in Ee by (cbn; exact F1).
+    apply finish_alv in H. destruct H as (evs2 & -> & W2 & K2). destruct Ee as [W1 K1].
+    exists (evs1 ++ evs2). rewrite app_assoc. split; [reflexivity|].
+    rewrite wf_log_app, kill_app, <- K1. auto.
+  - apply finish_alv in H. destruct H as (evs2 & -> & W2 & K2).
+    rewrite alv_set_conn, (alv_set_same k s _ sv Ek) in W2, K2 by exact F1.
+    exists evs2. rewrite app_nil_r. auto.
+Qed.
+
+Theorem step_alive cf sv r sv' rp evs :
+  step cf sv r = Done sv' rp evs -> wf_log (alv sv) evs /\ alv sv' = kill (alv sv) evs.
+Proof.
+  unfold step. intros H.
+  destruct (nnth (rconn r) (conns sv)) as [x|]; [|inversion H; subst; cbn; auto].
+  destruct (copen x); cbn [negb] in H; [|inversion H; subst; cbn; auto].
+  destruct (ctcp x && _); [discriminate|].
+  assert (FI : forall rp0 e, finish (rconn r) sv rp0 e [] = Done sv' rp evs ->
+                             wf_log (alv sv) evs /\ alv sv' = kill (alv sv) evs).
+  { intros rp0 e F. apply finish_alv in F. destruct F as (evs1 & -> & W & K). cbn [app]. auto. }
+  destruct (rcseq r); cbn [negb] in H; [|eapply FI; eauto].
+  destruct (dispatch cf r); [eapply FI; eauto|].
+  assert (IS : forall k, in_session cf sv (rconn r) x r k [] = Done sv' rp evs ->
+                         wf_log (alv sv) evs /\ alv sv' = kill (alv sv) evs).
+  { intros k F. apply in_session_alv in F. destruct F as (evs1 & -> & W & K). cbn [app]. auto. }
+  destruct (csess x).
+  - destruct (match rsess r with Some k => negb (k =? n) | None => false end); [eapply FI; eauto|eauto].
+  - destruct (match rsess r with Some k => _ | None => None end) as [[k s]|].
+    + destruct (cip x =? saip s); [eauto|eapply FI; eauto].
+    + destruct create; [|eapply FI; eauto].
+      apply in_session_alv in H. destruct H as (evs1 & -> & W & K).
+      unfold alv in W, K; cbn [sessions] in W, K. rewrite map_app in W, K. cbn [map new_session salive] in W, K.
+      cbn [app wf_log kill]. unfold alv at 1. rewrite nlen_map. auto.
+Qed.
+
+Fixpoint nends (k : N) (evs : list ev) : nat :=
+  match evs with
+  | [] => 0%nat
+  | EvEnd k' _ :: t => ((if k' =? k then 1 else 0) + nends k t)%nat
+  | EvOpen _ :: t => nends k t
+  end.
+
+(* in a well-formed log a session ends at most once, never after it is dead, and it is dead at the
+   end exactly if it was dead at the start or its end is in the log *)
+Lemma wf_log_ends evs : forall v k, wf_log v evs ->
+  (nnth k v = Some false -> nends k evs = 0%nat /\ nnth k (kill v evs) = Some false) /\
+  (nnth k v <> Some false ->
+   (nends k evs <= 1)%nat /\ (nends k evs = 1%nat <-> nnth k (kill v evs) = Some false)).
+Proof.
+  induction evs as [|e t IH]; intros v k W; cbn [nends kill wf_log] in *.
+  - split; [auto|]. intros N. split; [lia|]. split; [lia|]. intros F; contradiction.
+  - destruct e as [k0|k0 w]; destruct W as [W0 W].
+    + specialize (IH (v ++ [true]) k W). destruct IH as [IH1 IH2]. split.
+      * intros F. apply IH1. now apply nnth_app_l.
+      * intros N. apply IH2. intros F. destruct (nnth_app_inv _ _ _ _ F) as [[_ X]|[_ X]]; [discriminate|contradiction].
+    + specialize (IH (nset k0 false v) k W). destruct IH as [IH1 IH2].
+      destruct (N.eqb_spec k0 k) as [->|NK].
+      * split; [intros F; congruence|]. intros _.
+        assert (F : nnth k (nset k false v) = Some false) by (apply nnth_nset_same; eapply nnth_some_lt; eauto).
+        destruct (IH1 F) as [Z L]. rewrite Z. split; [lia|]. split; [intros _; exact L|lia].
+      * rewrite (nnth_nset_other k0 k false v NK) in IH1, IH2. cbn [Nat.add]. auto.
+Qed.
+
+Fixpoint run_evs (l : list (req * option resp * server * list ev)) : list ev :=
+  match l with [] => [] | (_, _, _, evs) :: t => evs ++ run_evs t end.
+Definition final_server (sv : server) (l : list (req * option resp * server * list ev)) : server :=
+  last (map (fun x => snd (fst x)) l) sv.
+
+Lemma run_log cf rs : forall sv l e,
+  run_reqs cf sv rs = (l, e) ->
+  wf_log (alv sv) (run_evs l) /\ alv (final_server sv l) = kill (alv sv) (run_evs l).
+Proof.
+  induction rs as [|r t IH]; intros sv l e H; cbn [run_reqs] in H.
+  - inversion H; subst. cbn. auto.
+  - destruct (step cf sv r) as [sv' rp evs| |] eqn:S; try (inversion H; subst; cbn; auto; fail).
+    destruct (run_reqs cf sv' t) as [l' e'] eqn:R. inversion H; subst; clear H.
+    destruct (IH sv' l' e' eq_refl) as [W K]. destruct (step_alive _ _ _ _ _ _ S) as [W0 K0].
+    cbn [run_evs]. rewrite wf_log_app, kill_app, <- K0. split; [auto|].
+    unfold final_server in *. cbn [map fst snd]. destruct l' as [|y l'']; [cbn in *; exact K|].
+    cbn [map last] in *. exact K.
+Qed.
+
+(* every session of a run ends at most once; it has ended at the end of the run iff its end is logged *)
+Theorem ends_exactly_once cf ips rs l e k :
+  run_reqs cf (init_server ips) rs = (l, e) ->
+  (nends k (run_evs l) <= 1)%nat /\
+  (nends k (run_evs l) = 1%nat <->
+   exists s, nnth k (sessions (final_server (init_server ips) l)) = Some s /\ salive s = false).
+Proof.
+  intros H. destruct (run_log _ _ _ _ _ H) as [W K].
+  destruct (wf_log_ends _ _ k W) as [_ P]. cbn [alv init_server sessions map] in P.
+  destruct P as [A B]; [cbn; discriminate|]. split; [exact A|].
+  rewrite B, <- K. unfold alv. rewrite nnth_map.
+  destruct (nnth k (sessions (final_server (init_server ips) l))) as [s|]; cbn [option_map].
+  - split; [intros F; inversion F; eauto|intros (s0 & F & G); inversion F; subst; now rewrite G].
+  - split; [discriminate|intros (s0 & F & _); discriminate].
+Qed.
